@@ -20,7 +20,7 @@ func (c12) NumCases(tier string) int {
 	if tier == "thorough" {
 		return 400_000
 	}
-	return 5_500
+	return 4_800
 }
 
 func (c12) Describe() CheckInfo {
